@@ -43,7 +43,7 @@ def observed_copies(coverage, cn_solution, m):
 @contract("aldy.major.solve_major_model", external={"aldy.major._print_candidates": ""}, native=False)
 def _(gene, coverage, cn_solution, allele_dict, solver, identifier, debug):
     types(allele_dict="Dict[str, MajorAllele]", solver="str", identifier="int", debug="Optional[str]")
-    requires(cn_wf(cn_solution), gene_wf(gene), sameobj(cn_solution.gene, gene) or True)
+    requires(cn_wf(cn_solution), gene_wf(gene))
     # candidates come from the structure (estimate_major / _filter_alleles ensure both)
     requires(forall(lambda an=str: implies(an in allele_dict, allele_dict[an].cn_config in cn_solution.solution
                                            and an in gene.alleles
@@ -124,3 +124,70 @@ def _(gene, coverage, cn_solution, allele_dict, solver, identifier, debug):
                                     for m in sites)
                     + coverage.profile.major_novel * z
                     + 0.1 * (0.0 + sum(newvar_at("N_{}", m) for m in obs)))
+
+
+# ------------------------------------------------------------------------------------------------
+# C15 / C02: the candidate filter of the major stage as a whole (debug probes off)
+
+def hq_obs(cov, pos, op):
+    """the observations of an entry that meet both quality thresholds, in order"""
+    return [ob for ob in cov._coverage[pos][op] if hq(cov.profile, ob)]
+
+
+@contract("aldy.major._filter_alleles", external={"aldy.gene.Gene.get_rsid": "str"}, native=False)
+def _(gene, coverage, cn_solution):
+    types(gene="Gene", coverage="Coverage", cn_solution="CNSolution")
+    returns("Tuple[Dict[str, MajorAllele], Coverage]")
+    requires(cn_wf(cn_solution), gene_wf(gene))
+    requires(coverage.profile.debug_probe == "", coverage._indels is None)
+    requires(coverage.profile.threshold > 0, coverage.profile.min_coverage >= 0, coverage.profile.cn_max > 0)
+    # C15: "an allele one of whose core variants has no qualifying support is never called" - it is not even a
+    # candidate; C02 mechanism "candidate selection: alleles whose core variants all pass the read filters"
+    ensures(forall(lambda an=str: (an in result[0]) == (
+        an in gene.alleles and gene.alleles[an].cn_config in cn_solution.solution
+        and forall(lambda m=Mutation: implies(m in gene.alleles[an].func_muts, support(result[1], m) > 0)))),
+        label="candidates-iff-all-core-variants-supported")
+    # C15: the evidence handed on to the model consists of observations that "meet the base- and mapping-quality
+    # thresholds" only: every kept entry is the quality-filtered list of the sample's entry ...
+    ensures(forall(lambda pos=int, o=str: implies(in_pileup(result[1], pos, o),
+                                                  in_pileup(coverage, pos, o)
+                                                  and result[1]._coverage[pos][o] == hq_obs(coverage, pos, o))),
+            label="evidence-is-quality-filtered")
+    # ... and is kept only with "at least the configured minimum number of reads"
+    ensures(forall(lambda pos=int, o=str: implies(in_pileup(result[1], pos, o),
+                                                  len(result[1]._coverage[pos][o]) >= coverage.profile.min_coverage
+                                                  and len(result[1]._coverage[pos][o]) > 0)),
+            label="evidence-has-minimum-reads")
+    # candidates are copies of the catalogue's alleles (what solve_major_model requires of its candidates)
+    ensures(forall(lambda an=str: implies(an in result[0], result[0][an].cn_config == gene.alleles[an].cn_config
+                                          and result[0][an].func_muts == gene.alleles[an].func_muts)),
+            label="candidates-are-catalogue-copies")
+    # the evidence handed on belongs to the same gene and profile
+    shares(result[1], coverage, "gene", "profile")
+    # C14: the gene database and the sample evidence are not modified (candidates are copies)
+    modifies()
+
+
+@contract("aldy.major.estimate_major", external={"aldy.coverage.Coverage.dump": "", "aldy.solutions.CNSolution._solution_nice": "str"}, native=False)
+def _(gene, coverage, cn_solution, solver, identifier, debug):
+    types(gene="Gene", coverage="Coverage", cn_solution="CNSolution", solver="str", identifier="int", debug="Optional[str]")
+    returns("List[MajorSolution]")
+    # (the VC generator keeps the objects reachable from different parameters apart: `coverage.gene` and
+    # `cn_solution.gene` are not identified with `gene`; no clause below needs that identity)
+    requires(cn_wf(cn_solution), gene_wf(gene))
+    requires(coverage.profile.debug_probe == "", coverage._indels is None)
+    requires(coverage.profile.threshold > 0, coverage.profile.min_coverage >= 0, coverage.profile.cn_max > 0,
+             coverage.profile.major_novel >= 0)
+    # Gene invariants (established by the loader, checked natively by the C09 contract of Gene.__init__):
+    # core variants of catalogue alleles are catalogued and function-altering; "_" is never a catalogued change;
+    # every configuration has a copy-number entry for every region of every gene copy
+    requires(forall(lambda an=str, m=Mutation: implies(an in gene.alleles and m in gene.alleles[an].func_muts,
+                                                       (m.pos, m.op) in gene.mutations and gene.is_functional((m.pos, m.op), True))))
+    requires(forall(lambda an=str: implies(an in gene.alleles, gene.alleles[an].cn_config in gene.cn_configs)))
+    requires(forall(lambda p=int: (p, "_") not in gene.mutations))
+    requires(forall(lambda c=str, g=int, r=str: implies(c in gene.cn_configs and 0 <= g and g < len(gene.regions) and r in gene.regions[g],
+                                                        g < len(gene.cn_configs[c].cn) and r in gene.cn_configs[c].cn[g])))
+    requires(forall(lambda c=str: implies(c in cn_solution.solution, cn_solution.solution[c] >= 0)))
+    # the obligations of this function are the PRECONDITIONS of solve_major_model at its call site: the candidate
+    # set and the filtered evidence produced by _filter_alleles satisfy what the model builder's contract assumes
+    modifies()
